@@ -4,7 +4,7 @@ From Coq Require Import List Bool Arith ZArith QArith String Lia.
 Import ListNotations.
 From DA Require Import Base.PyRT Base.Val Model.Sem Proofs.SemBasicP Model.ColumnsUsed Proofs.ColumnsUsedP1 Proofs.ColumnsUsedP2
   Proofs.ColumnsUsedP3 Proofs.ColumnsUsedP4 Proofs.ComposeP Model.SqlGen Model.SqlSem Proofs.SqlGenP1 Proofs.SqlGenP2 Proofs.SqlGenP3
-  Proofs.SqlGenP4 Proofs.SqlGenP5 Proofs.SqlGenP6.
+  Proofs.SqlGenP4 Proofs.SqlGenP5 Proofs.SqlGenP6 Proofs.SqlGenP10.
 Local Open Scope list_scope.
 
 Definition req (p : op) (usg : option (list string)) : list string :=
@@ -87,6 +87,34 @@ Proof.
       destruct (IH d s (Some su) n sub n1 NM BOs Sts (wf_env_unary e _ s eq_refl WF) Nsu Isu ER) as [S [ES D]]. cbn [req] in D.
       exists (sem_extend fl ops S). split; [simpl; rewrite ES; reflexivity|].
       apply (node_extend fl e s ops sub u S _ _ BO ES Nu Iu NSub D).
+  - (* project *)
+    simpl in St. apply andb_true_iff in St. destruct St as [Sts NE0].
+    destruct (bok_project _ _ _ BO) as [BOs Nall].
+    change (match usg with Some u0 => u0 | None => column_names (OProject s ops gb) end) with u in H. unfold bind in H.
+    set (guard := is_nil gb && negb (is_nil ops) && negb (existsb (fun k => mem k u) (map fst ops))) in *.
+    set (u1 := if guard then u ++ firstn 1 (map fst ops) else u) in *.
+    set (su := py_set (cfs1 (OProject s ops gb) u1)) in *.
+    destruct (to_near_f fuel d s (Some su) n) as [[sub n1]| |] eqn:ER; try discriminate. injection H as <- _.
+    assert (incl (gb ++ ops_cols ops) (column_names s)) as Icols.
+    { pose proof BO as BO'. simpl in BO'. rewrite !andb_true_iff in BO'. destruct BO' as [[_ B] _]. exact (proj1 (subset_spec _ _) B). }
+    assert (incl u u1) as Iuu1 by (unfold u1; destruct guard; [intros c Hc; apply in_app_iff; left; exact Hc|apply incl_refl]).
+    assert (incl u1 (column_names (OProject s ops gb))) as Iu1.
+    { unfold u1. destruct guard; [|exact Iu]. intros c Hc. apply in_app_iff in Hc. destruct Hc as [Hc|Hc]; [apply Iu, Hc|].
+      simpl. apply in_app_iff. right. destruct (map fst ops) as [|k0 t]; [destruct Hc|]. simpl in Hc. destruct Hc as [<-|[]]. left. reflexivity. }
+    assert (gb = [] -> sub_ops u1 ops <> []) as Hsub.
+    { intros ->. destruct ops as [|[k0 e0] ops']; [simpl in NE0; discriminate|]. unfold u1, guard. cbn [is_nil negb andb map fst].
+      destruct (existsb (fun k => mem k u) (k0 :: map fst ops')) eqn:EX; cbn [negb].
+      - apply existsb_exists in EX. destruct EX as [k [Ik Mk]]. apply mem_In in Mk. change (k0 :: map fst ops') with (map fst ((k0, e0) :: ops')) in Ik. apply in_map_iff in Ik. destruct Ik as [ke [Ek Ike]].
+        intros X. pose proof (in_sub_ops u ((k0, e0) :: ops') ke Ike) as I. rewrite Ek in I. specialize (I Mk). rewrite X in I. destruct I.
+      - cbn [firstn]. intros X. pose proof (in_sub_ops (u ++ [k0]) ((k0, e0) :: ops') (k0, e0) (or_introl eq_refl)) as I.
+        cbn [fst] in I. specialize (I ltac:(apply in_app_iff; right; left; reflexivity)). rewrite X in I. destruct I. }
+    assert (NoDup su /\ incl su (column_names s)) as [Nsu Isu].
+    { split; [apply NoDup_py_set|]. intros c Hc. unfold su in Hc. apply (proj1 (In_py_set _ _)) in Hc. unfold cfs1 in Hc. cbn [cols_from_sources nth] in Hc.
+      apply Icols. apply in_app_iff in Hc. apply in_app_iff. destruct Hc as [Hc|Hc]; [left; exact Hc|right].
+      unfold ops_cols in *. apply in_flat_map in Hc. destruct Hc as [ke [I1 I2]]. apply in_flat_map. exists ke. split; [|exact I2]. apply filter_In in I1. tauto. }
+    destruct (IH d s (Some su) n sub n1 NM BOs Sts (wf_env_unary e _ s eq_refl WF) Nsu Isu ER) as [S [ES D]]. cbn [req] in D.
+    exists (sem_project fl ops gb S). split; [simpl; rewrite ES; reflexivity|].
+    apply (node_project fl e s ops gb sub u u1 S _ BO NE0 ES Nu Iuu1 Iu1 Hsub D).
   - (* select_rows *)
     simpl in St. pose proof (bok_select_rows _ _ BO) as BOs.
     change (match usg with Some u0 => u0 | None => column_names (OSelectRows s x) end) with u in H. unfold bind in H.
